@@ -48,7 +48,12 @@ def main():
             r = sh(f"cd {wt} && /venv/bin/python -m pytest -q -p no:cacheprovider tests 2>&1 | tail -1", env=env)
             print("repo tests with patch:", r.stdout.strip())
         if args.demo:
-            r = sh(f"cd {wt} && /venv/bin/python {os.path.abspath(args.demo)} > /dev/null 2>&1; echo $?", env=env)
+            # demos may locate the tree relative to their own file (<tree>/_seed/demo.py): run a copy from inside the worktree
+            os.makedirs(f"{wt}/_seed", exist_ok=True)
+            import shutil
+
+            shutil.copy(os.path.abspath(args.demo), f"{wt}/_seed/demo.py")
+            r = sh(f"cd {wt} && /venv/bin/python {wt}/_seed/demo.py > /dev/null 2>&1; echo $?", env=env)
             print("demo exit status with patch (expected non-zero):", r.stdout.strip())
         for prop in args.props.split(","):
             for seed in args.seeds.split(","):
